@@ -37,7 +37,7 @@ PFX = {7: 'p', 8: 'q', 9: 'o'}
 URI = {1: 'urn:u1', 2: 'urn:u2', 3: 'urn:o'}
 
 
-def gen_doc(rng, big=False, faults=True):
+def gen_doc(rng, big=False, faults=True, huge=False):
     """abstract doc: node = {'tag','attrs','text','decls':[(prefix code, uri code)],'kids'}"""
     ids = [0]
     nextn = [0]
@@ -70,7 +70,7 @@ def gen_doc(rng, big=False, faults=True):
 
     def sec(tag, d):
         kids = [{'tag': 'title', 'attrs': {}, 'text': 'T', 'decls': [], 'kids': []}]
-        kids += [item() for _ in range(rng.randint(0, 40 if big else 3))]
+        kids += [item() for _ in range(rng.randint(0, 40 if big else 3) if not (huge and d == 0) else rng.randint(500, 1200))]
         kids += [link() for _ in range(rng.randint(0, 3))]
         if d < 2:
             kids += [sec('sub', d + 1) for _ in range(rng.choice([0, 0, 1, 2]))]
@@ -78,7 +78,7 @@ def gen_doc(rng, big=False, faults=True):
             kids.append({'tag': 'o:x', 'attrs': {}, 'text': 'w', 'decls': [(9, 3)], 'kids': []})
         a = {'code': 'c%d' % rng.randint(1, 4 if faults else 1000)} if rng.random() < 0.6 else {}
         return {'tag': tag, 'attrs': a, 'text': None, 'decls': decls(), 'kids': kids}
-    kids = [sec('s', 0) for _ in range(rng.randint(1, 25 if big else 4))]
+    kids = [sec('s', 0) for _ in range(rng.randint(1, 25 if big else 4) if not huge else rng.randint(1, 2))]
     if faults and len(kids) > 1 and rng.random() < 0.4:
         # a duplicated link value inside a later section: violates the unique constraint declared on the section element
         later = rng.choice(kids[1:])
@@ -323,7 +323,11 @@ def gen(ctx):
         doc = gen_doc(rng, big=big, faults=faults)
         if not faults:
             ensure_valid_refs(doc)
-        cases.append({'doc': doc, 'version': '1.1' if i % 2 else '1.0', 'depths': [1, 2, 3] if not big else [1], 'big': big})
+        cases.append({'doc': doc, 'version': '1.1' if i % 2 else '1.0', 'depths': [1, 2, 3] if not big else [1, 2], 'big': big})
+    # sections with hundreds of leaf items: the chunks of lazy depth 2 span many read blocks of the parser (16 KiB)
+    for i in range(3 if ctx.quick() else 20):
+        doc = gen_doc(rng, faults=True, huge=True)
+        cases.append({'doc': doc, 'version': '1.1' if i % 2 else '1.0', 'depths': [2] if i % 3 else [1, 2, 3], 'big': True})
     return cases
 
 
